@@ -1,11 +1,14 @@
 -- driver for C08: gcno/gcda model (same handler as gm_c15)
 import GrcovModel.Drv.C08
 import GrcovModel.Drv.C08MultiBlock
+import GrcovModel.Drv.C08Records
 open Grcov.Drv
 
 def step (line : String) : String :=
   match (line.trimAscii.toString.splitOn " ").filter (· ≠ "") with
   | "c08.mb" :: args => handleC08MultiBlock args
+  | "c08.listed" :: args => handleC08Listed args
+  | "c15.stamp" :: args => handleC15Stamp args
   | _ => stepC08 line
 
 partial def loop (h : IO.FS.Stream) (out : IO.FS.Stream) : IO Unit := do
